@@ -11,13 +11,13 @@ ENGINE = "gen_rebind"
 
 RULE = ("programs = try_rebind!{pattern = expr} and rebind_if_ok!{pattern = expr => code} with an Ok payload that is a single "
         "value or a tuple of 2..=6 components, every position being an existing place (local, struct field, array index), "
-        "`let x`, `let x: T`, `let (a, b)`, `let mut x`, `let ref x`, `_` or `_: T` - complete for arity <= 3, seeded sample for 4..=6 - each run on an Ok "
+        "`let x`, `let x: T` (restating the type, and as a coercion site `&[u8; 4]` -> `&[u8]`), `let (a, b)`, `let mut x`, `let ref x`, `_` or `_: T` - complete for arity <= 3, seeded sample for 4..=6 - each run on an Ok "
         "and an Err input; oracle = a hand-written `match` in the same program (assign every component in order, leave every "
         "place untouched on Err, propagate the error for try_rebind!), compared on a snapshot of all places and bindings and of an evaluation counter inside the right-hand expression (evaluated exactly once); "
         "every program is first compiled alone: a pattern of any arity 1..=6 that does not compile while its hand-written "
         "twin does is a violation; non-trivial = arity >= 3 or mixed position kinds, counted per distinct program")
 
-KINDS = ["local", "field", "index", "let", "let_typed", "let_tuple", "let_mut", "let_ref", "wild", "wild_typed"]
+KINDS = ["local", "field", "index", "let", "let_typed", "let_coerce", "let_tuple", "let_mut", "let_ref", "wild", "wild_typed"]
 
 
 def component(kind, i):
@@ -32,6 +32,10 @@ def component(kind, i):
         return "let x%d" % i, "i32", "let x%d = {v};" % i, ["x%d" % i]
     if kind == "let_typed":
         return "let x%d: i32" % i, "i32", "let x%d: i32 = {v};" % i, ["x%d" % i]
+    if kind == "let_coerce":
+        # the annotation is a coercion site (&[u8; 4] -> &[u8]): dropping it changes the binding's type, which the
+        # snapshot sees through size_of_val
+        return ("let x%d: &[u8]" % i, "&'static [u8; 4]", "let x%d: &[u8] = {v};" % i, ["(std::mem::size_of_val(&x%d), x%d)" % (i, i)])
     if kind == "let_tuple":
         return "let (p%d, q%d)" % (i, i), "(i32, i32)", "let (p%d, q%d) = {v};" % (i, i), ["p%d" % i, "q%d" % i]
     if kind == "let_mut":
